@@ -147,6 +147,11 @@ func main() {
 	}
 	a := hx.ParseArgs()
 	res := hx.NewResult()
+	if cmd == "zeroforge" {
+		zeroforge(a, res)
+		res.Write(a.Out)
+		return
+	}
 	in := readInput(a.In)
 	switch cmd {
 	case "gennaro":
